@@ -4,7 +4,7 @@ import numpy as np
 from .. import env, t4read, oracle, hier, refsem, geomdecide
 from ..hier import HDeck, HCell, Tr
 from ..runner import Scn, verdict, sha, Vacuous
-from . import c05, c09
+from . import c05, c06, c09
 
 ID = 'C13'
 LEVEL = 'model_checking'
@@ -96,9 +96,20 @@ def b_stress(ch):
     return d.finish()
 
 
+def b_lattice(ch):
+    """C06 lattice decks (shape choices deviation-bounded) x all configurations"""
+    dims = ch.choose('dims', [2, 1])
+    mode = ch.choose('array-mode', ['rot', 'single'])
+    d = c06.make_deck(ch, dims, False, False, mode)
+    d.options = list(d.options) + choose_config(ch)
+    d.family = 'lattice'
+    return d
+
+
 def scenarios(tier):
     q = tier == 'quick'
     return [
+        Scn('lattice', b_lattice, 1 if q else 2, 2, 'C06 lattices (deck choices deviation-bounded) x all 56 configurations'),
         Scn('tree', b_tree, 2 if q else 3, 3, 'C05 trees (deck choices deviation-bounded) x all 56 configurations'),
         Scn('stress', b_stress, None, None, 'surface-equality stress decks x all 56 configurations'),
     ]
@@ -174,7 +185,13 @@ def check_state(scn, st):
     if cls:
         return verdict(False, st, cls=cls, msg=msg + '\n' + st.deck_text + r.body[:1500], out=sha(r.body))
     stats = {'configs': {' '.join(st.options)}}
-    if st.family == 'tree':
+    if st.family == 'lattice':
+        v = c06.check_state('shapes', st, result=r)
+        if not v['ok']:
+            v['cls'] = dict(v['cls'] or {}, prop='lattice-location', options=' '.join(st.options))
+            return v
+        stats['witness_points'] = v['stats'].get('witness_points', 0)
+    elif st.family == 'tree':
         v = c05.check_state('trees', st, result=r)
         if not v['ok']:
             v['cls'] = dict(v['cls'] or {}, prop='provenance')
